@@ -128,15 +128,27 @@ Lemma tag_args_shape : forall l : list (list N),
   unrepresentable_tag_args l =
   match l with
   | [] => None
-  | _ :: _ => Some (if (Z.of_nat (length l) >? 5)%Z then firstn 4 l ++ [s_dots] else l)
+  | _ :: _ => Some (if (5 <? Z.of_nat (length l))%Z then firstn 4 l ++ [s_dots] else l)
   end.
 Proof.
   intros l. unfold unrepresentable_tag_args. destruct l as [|x r]; [reflexivity|]. f_equal.
   destruct (Nat.ltb 5 (length (x :: r))) eqn:E.
-  - apply Nat.ltb_lt in E. replace (Z.of_nat (length (x :: r)) >? 5)%Z with true by (symmetry; apply Z.gtb_lt; lia). reflexivity.
-  - apply Nat.ltb_ge in E. replace (Z.of_nat (length (x :: r)) >? 5)%Z with false; [reflexivity|].
-    symmetry. rewrite Z.gtb_ltb. apply Z.ltb_ge. lia.
+  - apply Nat.ltb_lt in E. replace (5 <? Z.of_nat (length (x :: r)))%Z with true by (symmetry; apply Z.ltb_lt; lia). reflexivity.
+  - apply Nat.ltb_ge in E. replace (5 <? Z.of_nat (length (x :: r)))%Z with false; [reflexivity|].
+    symmetry. apply Z.ltb_ge. lia.
 Qed.
+
+(* `if ctx.language is not None: ...` at the end of every path of the statement; the length test may be written either way *)
+Ltac mime_unrep :=
+  unfold mime_unrepresentable;
+  match goal with |- context [if ?hl then pbind _ _ _ _ else _] => destruct hl end; [|reflexivity];
+  match goal with |- context [pbind (?u ?e)] =>
+    let l := fresh "l" in
+    destruct (u e) as [l| | | |]; cbn [pbind]; try reflexivity;
+    cbv zeta; rewrite tag_args_shape; rewrite ?Z.gtb_ltb;
+    destruct l as [|? ?]; [reflexivity|]
+  end;
+  match goal with |- context [(5 <? ?n)%Z] => destruct (5 <? n)%Z end; reflexivity.
 
 Lemma src_check_mime_charset_eq : forall d o is_template has_language unrep enc ct,
   src_check_mime_charset d o is_template has_language unrep enc ct =
@@ -144,32 +156,17 @@ Lemma src_check_mime_charset_eq : forall d o is_template has_language unrep enc 
 Proof.
   intros d o it hl unrep enc ct. unfold src_check_mime_charset, mime_charset, classify.
   rewrite src_is_ascii_compatible_encoding_eq.
-  assert (Hun : forall tags e,
-    mime_unrepresentable hl unrep tags e =
-    (if hl then
-       pbind (unrep e)
-         (fun l => if match l with [] => false | _ :: _ => true end
-                   then (if (Z.of_nat (length l) >? 5)%Z
-                         then PRet (tags ++ [(t_unrepresentable, [e] ++ (firstn 4 l ++ [s_dots]))], Some e)
-                         else PRet (tags ++ [(t_unrepresentable, [e] ++ l)], Some e))
-                   else PRet (tags, Some e))
-         (PRet (tags, Some e)) (@PRaise _)
-     else PRet (tags, Some e))).
-  { intros tags e. unfold mime_unrepresentable. destruct hl; [|reflexivity].
-    destruct (unrep e) as [l| | | |]; cbn [pbind]; try reflexivity.
-    rewrite tag_args_shape. destruct l as [|x r]; [reflexivity|].
-    destruct (Z.of_nat (length (x :: r)) >? 5)%Z; reflexivity. }
   destruct (is_ascii_compatible_encoding o false enc) as [[|]|[]|c]; cbn [of_ascii pbind].
   - cbv zeta. cbn [negb]. rewrite src_is_portable_encoding_eq. cbn [pbind].
     destruct (is_portable_encoding d o true enc).
-    + rewrite Hun. reflexivity.
+    + mime_unrep.
     + rewrite src_propose_portable_encoding_eq.
       destruct (propose_portable_encoding d o enc) as [[p|]|[]|c]; cbn [of_propose pbind obind].
-      * cbv zeta. rewrite Hun. reflexivity.
-      * rewrite Hun. reflexivity.
+      * mime_unrep.
+      * mime_unrep.
       * reflexivity.
       * destruct c; reflexivity.
-  - cbv zeta. cbn [negb]. rewrite Hun. reflexivity.
+  - cbv zeta. cbn [negb]. mime_unrep.
   - destruct (list_eqb enc s_CHARSET) eqn:E; unfold s_CHARSET in E; rewrite E; [destruct it|]; reflexivity.
   - destruct c; reflexivity.
 Qed.
